@@ -167,7 +167,7 @@ def main():
         hooks=dict(guard="verif",
                    enable="go build -tags verif (harness modules replace github.com/creachadair/jrpc2 => /repo)",
                    baseline_off_cmd="cd /repo && go test -mod=mod -vet=off -count=1 -timeout 25m ./...",
-                   source_commits=["a42c89f"], add_only=True),
+                   source_commits=["a42c89f", "37dbc9b"], add_only=True),
         engines=[dict(name="coq+harness", path="check", serves_properties=[c["property_id"] for c in checks],
                       kind_free_text="Coq 8.16.1 proofs over hand-written executable models; OCaml-extracted model vs Go "
                                      "implementation differential correspondence")],
